@@ -14,8 +14,10 @@ import (
 	"encoding/base64"
 	"encoding/xml"
 	"fmt"
+	"golang.org/x/net/idna"
 	"io"
 	"math/rand"
+	"mellium.im/xmpp/s2s"
 	"net"
 	"net/http"
 	"net/http/httptest"
@@ -48,9 +50,22 @@ const (
 	user     = "user"
 )
 
-var domains = []string{"a.example", "b.example", "c.example", "d.example", "e.example", "f.example"}
+// (the last three are internationalized names, two of them with characters that
+// IDNA2003 maps to something else — ß to ss, final sigma to sigma — and IDNA2008
+// keeps: whatever spelling goes into the ClientHello, it names that domain)
+var domains = []string{"a.example", "b.example", "c.example", "d.example", "e.example", "f.example", "bücher.example", "faß.example", "νίκος.example"}
 
 const explicitName = "explicit.example"
+
+// aLabel is the other spelling of the same domain: its IDNA2008
+// (non-transitional) ASCII form.
+func aLabel(d string) string {
+	a, err := idna.New(idna.MapForLookup(), idna.Transitional(false)).ToASCII(d)
+	if err != nil {
+		return d
+	}
+	return a
+}
 
 var (
 	idOnce sync.Once
@@ -60,7 +75,11 @@ var (
 func identity() *tlspeer.Identity {
 	idOnce.Do(func() {
 		var err error
-		ident, err = tlspeer.NewIdentity(append(append([]string{}, domains...), explicitName, foreignDomain)...)
+		names := []string{explicitName, foreignDomain}
+		for _, d := range domains {
+			names = append(names, aLabel(d)) // certificates name A-labels
+		}
+		ident, err = tlspeer.NewIdentity(names...)
 		if err != nil {
 			panic(err)
 		}
@@ -77,7 +96,7 @@ func identity() *tlspeer.Identity {
 
 var advKinds = []string{
 	"tls-required", "tls-optional", "tls-required+others", "tls-optional+others",
-	"mechs-only", "mechs+bind", "empty", "unknown-only", "inst-only", "tls-wrongns",
+	"mechs-only", "mechs+bind", "empty", "unknown-only", "inst-only", "tls-wrongns", "stream-error",
 	// look-alikes: another element in the STARTTLS namespace (nothing that
 	// advertises STARTTLS), alone, with mechanisms, with everything else
 	"tlsns-other", "tlsns-other+mechs", "tlsns-other+others",
@@ -277,6 +296,9 @@ func advXML(sc scenario) string {
 	req := "<starttls xmlns='" + nsTLS + "'><required/></starttls>"
 	opt := "<starttls xmlns='" + nsTLS + "'/>"
 	others := mechsXML(sc) + "<bind xmlns='" + nsBind + "'/><unknown xmlns='urn:verif:unknown'/><inst xmlns='" + nsInst + "'/><info xmlns='" + nsInfo + "' v='clear'/>"
+	if sc.S2S {
+		others = "<bidi xmlns='urn:xmpp:features:bidi'/>" + others
+	}
 	var in string
 	switch sc.Adv {
 	case "tls-required":
@@ -293,6 +315,9 @@ func advXML(sc scenario) string {
 		in = mechsXML(sc) + "<bind xmlns='" + nsBind + "'/>"
 	case "empty":
 		return "<stream:features/>"
+	case "stream-error":
+		// the server refuses the stream where its features list belongs
+		return "<stream:error><host-unknown xmlns='urn:ietf:params:xml:ns:xmpp-streams'/></stream:error>"
 	case "unknown-only":
 		in = "<unknown xmlns='urn:verif:unknown'/>"
 	case "inst-only":
@@ -1064,6 +1089,12 @@ func buildFeatures(sc scenario, stls xmpp.StreamFeature, sink func(instCall)) []
 	if sc.Info {
 		feats = append(feats, infoFeature())
 	}
+	if sc.S2S {
+		// the library's own server-to-server feature (XEP-0288), documented to
+		// need a secured stream like SASL; in front, so that neither list order
+		// nor map order favours STARTTLS
+		feats = append([]xmpp.StreamFeature{s2s.Bidi()}, feats...)
+	}
 	return feats
 }
 
@@ -1455,7 +1486,7 @@ func judge(c *core.Case, sc scenario, res result, prior []string) {
 	if (sc.Cfg == "default" || sc.Cfg == "explicit-noname") && res.Peer.Hellos > 0 {
 		c.Count("sni_checked", 1)
 		for _, name := range res.Peer.SNI {
-			if name == sc.Domain {
+			if name == sc.Domain || name == aLabel(sc.Domain) {
 				continue
 			}
 			key := "sni:mismatch"
@@ -1829,6 +1860,8 @@ var fixedGroups = []func(c *core.Case){
 	func(c *core.Case) { fixedNear(c, scenario{ClearTo: "near-local-shift"}) },
 	func(c *core.Case) { fixedNear(c, scenario{ClearFrom: "near-shift"}) },
 	func(c *core.Case) { fixedNear(c, scenario{ClearFrom: "same-length-domain"}) },
+	func(c *core.Case) { fixedS2SOthers(c, "tls-required+others") },
+	func(c *core.Case) { fixedS2SOthers(c, "tls-optional+others") },
 	func(c *core.Case) { fixedNear(c, scenario{ClearTo: "same-length-domain"}) },
 	func(c *core.Case) {
 		fixedNear(c, scenario{ClearTo: "near-domain-shift", S2S: true, Location: domains[3]})
@@ -1839,8 +1872,12 @@ var fixedGroups = []func(c *core.Case){
 	func(c *core.Case) { fixedPlain(c, scenario{S2S: true, Adv: "unknown-only"}, "s2s") },
 	func(c *core.Case) { fixedPlain(c, scenario{S2S: true, Adv: "mechs-only"}, "s2s") },
 	// look-alike elements in the STARTTLS namespace
-	func(c *core.Case) { fixedPlain(c, scenario{Adv: "empty", PreAuthn: true, InTLS: "features-empty"}, "preauthn") },
-	func(c *core.Case) { fixedPlain(c, scenario{Adv: "mechs+bind", PreAuthn: true, InTLS: "features-empty"}, "preauthn") },
+	func(c *core.Case) {
+		fixedPlain(c, scenario{Adv: "empty", PreAuthn: true, InTLS: "features-empty"}, "preauthn")
+	},
+	func(c *core.Case) {
+		fixedPlain(c, scenario{Adv: "mechs+bind", PreAuthn: true, InTLS: "features-empty"}, "preauthn")
+	},
 	func(c *core.Case) { fixedPlain(c, scenario{Adv: "tlsns-other"}, "tlsns") },
 	func(c *core.Case) { fixedPlain(c, scenario{Adv: "tlsns-other+mechs"}, "tlsns") },
 	func(c *core.Case) { fixedPlain(c, scenario{Adv: "tlsns-other+others"}, "tlsns") },
@@ -1861,6 +1898,16 @@ func fixedPlain(c *core.Case, sc scenario, what string) {
 	sc.Answer, sc.InTLS, sc.Cfg, sc.Domain, sc.Order, sc.TLSHdr, sc.CfgFunc, sc.Mechs = "proceed-tls", inTLS, "explicit", domains[2], []int{0, 1, 2, 3}, "complete", "static", "plain"
 	c.Count("fixed_"+what+"_groups", 1)
 	teeGroupN(c, sc, []string{"both"}, 0)
+}
+
+// fixedS2SOthers: a server-to-server initiator whose peer advertises, next to
+// STARTTLS, everything else a server may list before TLS (the bidi feature
+// among it): the required and the voluntary form.
+func fixedS2SOthers(c *core.Case, adv string) {
+	sc := scenario{S2S: true, Location: domains[3], Adv: adv}
+	sc.Answer, sc.InTLS, sc.Cfg, sc.Domain, sc.Order, sc.TLSHdr, sc.CfgFunc, sc.Mechs, sc.Info = "proceed-tls", "full", "default", domains[1], []int{1, 2, 0, 3}, "complete", "static", "plain", true
+	c.Count("fixed_s2s_everything_advertised_groups", 1)
+	teeGroupN(c, sc, []string{"in"}, 3)
 }
 
 func fixedNear(c *core.Case, sc scenario) {
@@ -1936,7 +1983,7 @@ func Prop() *core.Prop {
 		"slice_reuse_first_session_ready_over_tls", "slice_reuse_later_session_forced_starttls",
 		"slice_reuse_groups_ws_framed", "ws_framed_sessions_negotiator", "ws_framed_sessions_newsession", "ws_framed_forced_starttls",
 		"real_ws_sessions_origin_http", "real_ws_sessions_origin_https", "real_ws_starttls_requested_origin_https", "real_ws_origin_pairs_compared",
-		"fixed_near_miss_header_groups", "clear_to_near-domain-shift", "clear_to_near-local-shift", "clear_from_near-shift", "clear_from_same-length-domain", "clear_to_same-length-domain",
+		"fixed_near_miss_header_groups", "fixed_s2s_everything_advertised_groups", "clear_to_near-domain-shift", "clear_to_near-local-shift", "clear_from_near-shift", "clear_from_same-length-domain", "clear_to_same-length-domain",
 		"reuse_caller_config_compared_explicit-noname", "reuse_caller_config_compared_explicit-insecure", "reuse_caller_config_compared_explicit",
 		"fixed_several_features_groups_mechs_scram", "fixed_several_features_groups_mechs_both", "fixed_several_features_groups_mechs_plain",
 		"sessions_with_several_features_on_one_clear_list_mechs_scram", "repeated_sessions_compared", "in_tls_scram_exchanges_completed",
